@@ -276,6 +276,23 @@ theorem sampleTree_congr (env : HEnv K) (h h' : Heap K) (t : HTree K)
   have : t.eval env h' = t.eval env h := funext (eval_congr env h h' t ht)
   rw [this]
 
+theorem sampleset_congr (thr : K) (bbss : K → Option (List K)) (h h' : Heap K) (t : HTree K)
+    (ht : ∀ m ∈ t.tables, h'.table m = h.table m) : t.sampleset thr bbss h' = t.sampleset thr bbss h := by
+  induction t with
+  | tab m => simp [HTree.sampleset, ht m (by simp [HTree.tables])]
+  | ana l => rfl
+  | bb temp => rfl
+  | bin op l r ihl ihr =>
+    have hl := ihl (fun m hm => ht m (by simp [HTree.tables, hm]))
+    have hr := ihr (fun m hm => ht m (by simp [HTree.tables, hm]))
+    simp [HTree.sampleset, hl, hr]
+  | scale m k ih =>
+    have := ih (fun m' hm => ht m' (by simpa [HTree.tables] using hm))
+    simp [HTree.sampleset, this]
+  | redshift z m ih =>
+    have := ih (fun m' hm => ht m' (by simpa [HTree.tables] using hm))
+    simp [HTree.sampleset, this]
+
 /-- the tables of the `model` property are those of `_model` -/
 theorem model_tables (o : Obj K) (t : HTree K) (h : o.model = .ok t) : t.tables = o.tree.tables := by
   unfold Obj.model at h
